@@ -432,6 +432,13 @@ def rule_rotten_flag(ctx: Ctx) -> RuleResult:
     rr.inst("push_cursor", True, {"stores": len(stores)})
     if not stores:
         raise AnalysisError("push_cursor: no store to is_rotten_cursor found")
+    # explicit cursor addressing (every CSI cursor movement goes through move_cursor) cancels a pending wrap
+    mv = p.func(f"{VT}.TermCanvas.move_cursor")
+    mcfg = cfg_of(mv)
+    mstores = [n for n in mcfg.nodes if isinstance(n.ast, ast.Assign) and any(isinstance(t, ast.Attribute) and t.attr == "is_rotten_cursor" for t in n.ast.targets) and isinstance(n.ast.value, ast.Constant) and n.ast.value.value is False]
+    rr.inst("move_cursor", True, {"stores": len(mstores)})
+    if not mstores or mcfg.exit in mcfg.reachable([mcfg.entry], avoid=mstores, labels=("n", "T", "F")):
+        rr.add(finding("PASS", mv, mv.node, "move_cursor() can position the cursor without clearing is_rotten_cursor: after a character was written into the last column, CUP to a last-column cell followed by a character wraps that character onto the next row", construct="move_cursor keeps a pending wrap"))
     if cfg.exit in cfg.reachable([cfg.entry], avoid=stores, labels=("n", "T", "F")):
         path = cfg.witness_path(cfg.entry, [cfg.exit], avoid=stores, labels=("n", "T", "F"))
         last_test = next((n for n in reversed(path or []) if n.kind == "test"), None)
@@ -606,6 +613,7 @@ from ..mutants import Mut  # noqa: E402
 
 _V = "urwid/vterm.py"
 MUTANTS = [
+    Mut("cup-keeps-pending-wrap", "urwid/vterm.py", "TermCanvas.move_cursor", "        # an explicit cursor movement cancels a pending wrap\n        self.is_rotten_cursor = False\n", "", "PASS|vterm.TermCanvas.move_cursor"),
     Mut("canvas-cursor-unconstrained", "urwid/vterm.py", "TermCanvas.set_term_cursor", "        self.term_cursor = x, y = self.constrain_coords(x, y)", "        self.term_cursor = self.constrain_coords(x, y)", "POSBOUND|vterm.TermCanvas.set_term_cursor"),
     Mut("ed1-stops-before-cursor", "urwid/vterm.py", "TermCanvas.csi_erase_display", "self.erase((0, 0), self.term_cursor)", "self.erase((0, 0), (self.term_cursor[0] - 1, self.term_cursor[1]))", "SIB|vterm.TermCanvas.csi_erase_display"),
     Mut("il-inserts-before-pop", "urwid/vterm.py", "TermCanvas.insert_lines", "            self.term.pop(self.scrollregion_end)\n            self.term.insert(row, self.empty_line())", "            self.term.insert(row, self.empty_line())\n            self.term.pop(self.scrollregion_end)", "ORDER|vterm.TermCanvas.insert_lines"),
